@@ -4,7 +4,7 @@ from common import *
 import lexgen
 
 PID = "C04"
-TARGETS = ["Run.vo", "Lexer_proofs.vo", "Grammar_proofs.vo", "NonVacuous/C04.vo", "Message_proofs2.vo"]
+TARGETS = ["Run.vo", "Lexer_proofs.vo", "Grammar_proofs.vo", "NonVacuous/C04.vo", "Message_proofs2.vo", "Message_proofs3.vo", "Lexer_ranges.vo", "NonVacuous/C04_ranges.vo"]
 IMPORTS = "From VF Require Import Base Show Gen_Errors Lexer Grammar Response Conv Tree Scripted Run."
 ALLOWED_AXIOMS = []
 PROFILES = ["debug", "release"]
